@@ -475,7 +475,11 @@ impl RateLimiter {
 
         // We add `new` to `capacity`, subtract one for returning `true` from here,
         // then make sure it does not exceed a maximum of `MAX_BURST`, then store it.
-        self.capacity = Ord::min(MAX_BURST as u128, (self.capacity as u128) + new - 1) as u8;
+        let capacity = (self.capacity as u128) + new - 1;
+        self.capacity = Ord::min(MAX_BURST as u128, capacity) as u8;
+        // A full bucket cannot bank time: otherwise a burst is followed by one more frame less
+        // than an interval later.
+        let remainder = if capacity >= MAX_BURST as u128 { 0 } else { remainder };
         // Store `prev` for the next iteration after subtracting the `remainder`.
         // Just use `unwrap` here because it shouldn't be possible for this to underflow.
         self.prev = now
